@@ -55,6 +55,15 @@ def drainCoeffs (m : Mode) (a b : Int) (bl : Nat) : Nat → Int → Nat → List
       drainCoeffs m a b bl fuel (temp / 2 ^ bl) (bi - bl) (c :: out)
     else pure (temp, bi, out)
 
+/-- the per-byte step of `bit_unpack`: shift the byte into the accumulator, pop whole coefficients -/
+def unpackStep (m : Mode) (a b : Int) (bl : Nat) (st : Int × Nat × List Int) (byte : Nat) : M (Int × Nat × List Int) := do
+  let (temp, bi, out) := st
+  let sh ← shl .i32 m "conversion.rs:bit_unpack:<<bit_index" (Int.ofNat byte) bi
+  let temp := bor .i32 temp sh
+  let (temp, bi, out) ← drainCoeffs m a b bl 8 temp (bi + 8) out
+  if out.length > 256 then throw (Fault.oob "conversion.rs:bit_unpack:w_out[r_index]") else
+  pure (temp, bi, out)
+
 /-- Algorithm 19 `bit_unpack`; `none` is the `ensure!` error -/
 def bitUnpack (m : Mode) (v : List Nat) (a b : Int) : M (Option Poly) := do
   dassert m "conversion.rs:bit_unpack:debug_assert(Alg 19: a out of range)" (decide (0 ≤ a) && decide (a < 1048576))
@@ -63,14 +72,7 @@ def bitUnpack (m : Mode) (v : List Nat) (a b : Int) : M (Option Poly) := do
   let bl ← bitLen m ab
   dassert m "conversion.rs:bit_unpack:debug_assert_eq(Alg 19: bad output size)" (v.length == 32 * bl)
   if bl = 0 then throw (Fault.expect "conversion.rs:bit_unpack:bitlen") else
-  let step := fun (st : Int × Nat × List Int) (byte : Nat) => do
-    let (temp, bi, out) := st
-    let sh ← shl .i32 m "conversion.rs:bit_unpack:<<bit_index" (Int.ofNat byte) bi
-    let temp := bor .i32 temp sh
-    let (temp, bi, out) ← drainCoeffs m a b bl 8 temp (bi + 8) out
-    if out.length > 256 then throw (Fault.oob "conversion.rs:bit_unpack:w_out[r_index]") else
-    pure (temp, bi, out)
-  let (_, _, out) ← v.foldlM step (0, 0, [])
+  let (_, _, out) ← v.foldlM (unpackStep m a b bl) (0, 0, [])
   let w := out.reverse
   let w := w ++ List.replicate (256 - w.length) 0
   let ok ← isInRange m w a b
